@@ -108,3 +108,7 @@ Print Assumptions C02_poseidon_verifies.
 Print Assumptions C02_model_is_the_source.
 Print Assumptions C02_mimc7_is_circomlib.
 Print Assumptions C02_mimc7_roundtrip_verifies.
+Print Assumptions C02_poseidon_conforms.
+Print Assumptions C02_poseidon_digest_is_reference.
+Print Assumptions C02_poseidon_is_circomlib.
+Print Assumptions C02_poseidon_roundtrip_verifies.
